@@ -38,7 +38,7 @@ const (
 type node struct {
 	Role string `json:"role"` // g (grandparent), p (parent), q (second parent), leaf
 	Path string `json:"path"` // relative to R
-	Kind string `json:"kind"` // D empty dir, N dir holding one file "c", F file "abc", L symlink to R/tf
+	Kind string `json:"kind"` // D empty dir, N dir holding one file "c", F file "abc", E empty file, L symlink to R/tf
 	Uid  int    `json:"uid"`
 	Gid  int    `json:"gid"`
 	Mode oct    `json:"mode"` // Unix layout, 0o7777
@@ -91,6 +91,7 @@ type callT struct {
 	Sub     string `json:"sub,omitempty"`  // operand is leaf + "/" + Sub (MkdirAll two levels)
 	Dest    string `json:"dest,omitempty"` // relative path of the second operand (Rename/Link)
 	Up      bool   `json:"up,omitempty"`   // operand is the directory that holds the leaf
+	Cur     bool   `json:"cur,omitempty"`  // no-op argument: the operand's CURRENT value (resolveCur)
 	Creates bool   `json:"creates,omitempty"`
 }
 
@@ -108,7 +109,7 @@ type family struct {
 	Depth    int
 	Nodes    []nodeT
 	Leaf     string // relative path of the operand
-	LeafKind string // F D N L or M (missing)
+	LeafKind string // F E D N L or M (missing)
 	Calls    []callT
 }
 
@@ -194,8 +195,24 @@ func callsOpen() []callT {
 	return cs
 }
 
+// ownerUmasks: the masks that take something away from the OWNER class - every
+// non-zero value of the owner digit, and everything. Lesson: the usual masks
+// (0, 002, 022, 027, 077) leave the creator all the bits of perm in his own
+// class, so "the mode the object was given" and "the perm argument" grant him
+// the same and code that consults the wrong one of the two cannot be told from
+// code that consults the right one. A mask with an owner bit makes them differ:
+// the creator himself may then not write to / search / read what he has just
+// created, which decides the NEXT step of a call made of several creations
+// (MkdirAll with two or three missing levels: level k+1 is created inside
+// level k with the mode level k was just given, and the kernel refuses it with
+// EACCES when that mode lacks owner w or x). Every creating call is enumerated
+// with every perm x every mask of allUmasks, the multi-level creations with 1,
+// 2 and 3 missing levels; the kernel gives the answer (os.MkdirAll = successive
+// mkdir(2)) and the trees are compared (what a refused MkdirAll leaves).
+var ownerUmasks = []oct{0o100, 0o200, 0o300, 0o400, 0o500, 0o600, 0o700, 0o777}
+
 var (
-	allUmasks = []oct{0o022, 0o000, 0o002, 0o027, 0o077}
+	allUmasks = append([]oct{0o022, 0o000, 0o002, 0o027, 0o077}, ownerUmasks...)
 	allPerms  = []oct{0o666, 0o600, 0o777, 0o2755}
 	chownAll  = []string{"self", "uid-other", "gid-own", "gid-other", "noop", "uid-self", "uid-other+gid-own", "uid-self+gid-other", "uid-other+gid-other"}
 
@@ -249,6 +266,86 @@ func resolveChown(form string, a user) (uid, gid int) {
 	panic("chown form " + form)
 }
 
+// The no-op argument dimension. Lesson: the kernel decides permission BEFORE it
+// looks at whether the call would change anything - truncate(2) to the current
+// length without write permission is EACCES, chmod(2) to the current mode and
+// chown(2) to the current owner and group by somebody who is not the owner are
+// EPERM, ftruncate(2) to the current length on a read-only descriptor is EINVAL -
+// while a library is tempted to return early "because there is nothing to do",
+// and a shortcut placed above the permission check allows what must be refused
+// for exactly one argument value. (The other way round, rename(2) of a name onto
+// itself IS decided before the directory permissions: nothing is asked of the
+// directory; the kernel gives the answer here as everywhere.) So every call
+// that sets an attribute to a given value is also enumerated with the value the
+// operand ALREADY has - Cur: resolved against the configuration by resolveCur,
+// the length against the content the administrator history wrote - under every
+// (owner, group, mode) configuration of its family, and the trees are compared
+// after it like after any other call. Chtimes with the current times is not
+// tried (times are not compared by C03).
+const (
+	sizeF = 3 // length of the content of a file of kind F ("abc"); kind E is empty
+)
+
+// callsCurPath: the path-taking calls with the current value, for an operand
+// whose current length is size (negative: not a regular file).
+func callsCurPath(size int64, dest bool) []callT {
+	um := oct(0o022)
+
+	var cs []callT
+
+	if size >= 0 {
+		cs = append(cs, callT{Op: "Truncate", Variant: "current-size", Size: size, Cur: true, Umask: um})
+	}
+
+	cs = append(cs,
+		callT{Op: "Chmod", Variant: "current-mode", Cur: true, Umask: um},
+		callT{Op: "Chown", Variant: "current-owner", Cur: true, Umask: um},
+	)
+
+	if dest {
+		cs = append(cs, callT{Op: "Rename", Variant: "onto-itself", Cur: true, Umask: um})
+	}
+
+	return cs
+}
+
+// resolveCur fills in the arguments of a call that repeats the current value of
+// its operand (the leaf of the configuration); idempotent, so that a replay
+// file can hold the resolved call.
+func resolveCur(c callT, nodes []node) callT {
+	if !c.Cur {
+		return c
+	}
+
+	for _, n := range nodes {
+		if n.Role != "leaf" {
+			continue
+		}
+
+		switch c.Op {
+		case "Chmod", "File.Chmod":
+			c.Perm = n.Mode
+		}
+	}
+
+	return c
+}
+
+// calls on an empty regular file: length 0 is the current length, so the
+// "nothing to do" value of Truncate and of O_TRUNC is the most usual argument.
+func callsE() []callT {
+	um := oct(0o022)
+
+	return []callT{
+		{Op: "Truncate", Variant: "current-size", Size: 0, Cur: true, Umask: um},
+		{Op: "OpenFile", Variant: flagName(os.O_WRONLY | os.O_TRUNC), Flag: os.O_WRONLY | os.O_TRUNC, Umask: um},
+		{Op: "OpenFile", Variant: flagName(os.O_RDONLY | os.O_TRUNC), Flag: os.O_RDONLY | os.O_TRUNC, Umask: um},
+		{Op: "File.Truncate", Variant: "WRONLY,current-size", Flag: os.O_WRONLY, Size: 0, Cur: true, Umask: um},
+		{Op: "File.Truncate", Variant: "RDONLY,current-size", Flag: os.O_RDONLY, Size: 0, Cur: true, Umask: um},
+		{Op: "Truncate", Variant: "5", Size: 5, Umask: um},
+	}
+}
+
 // calls on an existing regular file.
 func callsF(tier string, dest string) []callT {
 	var cs []callT
@@ -276,6 +373,10 @@ func callsF(tier string, dest string) []callT {
 		callT{Op: "Truncate", Variant: "5", Size: 5, Umask: um},
 		callT{Op: "Chtimes", Umask: um},
 	)
+
+	// the no-op argument dimension (callsCurPath); Rename onto itself goes with
+	// the other calls on the name below
+	cs = append(cs, callsCurPath(sizeF, false)...)
 
 	chmods := []oct{0o640, 0o2755}
 	if tier == "thorough" {
@@ -305,6 +406,7 @@ func callsF(tier string, dest string) []callT {
 		callT{Op: "File.Chmod", Variant: "WRONLY,2755", Flag: os.O_WRONLY, Perm: 0o2755, Umask: um},
 		callT{Op: "File.Truncate", Variant: "WRONLY", Flag: os.O_WRONLY, Size: 1, Umask: um},
 		callT{Op: "File.Truncate", Variant: "RDONLY", Flag: os.O_RDONLY, Size: 1, Umask: um},
+		callT{Op: "File.Truncate", Variant: "RDONLY,current-size", Flag: os.O_RDONLY, Size: sizeF, Cur: true, Umask: um},
 		callT{Op: "File.Write", Variant: "WRONLY", Flag: os.O_WRONLY, Umask: um},
 		callT{Op: "File.Write", Variant: "RDONLY", Flag: os.O_RDONLY, Umask: um},
 	)
@@ -315,6 +417,7 @@ func callsF(tier string, dest string) []callT {
 
 	// mutating calls on the name last (they force a rebuild when they succeed)
 	cs = append(cs,
+		callT{Op: "Rename", Variant: "onto-itself", Cur: true, Umask: um},
 		callT{Op: "Link", Variant: "samedir", Dest: dest, Umask: um},
 		callT{Op: "Rename", Variant: "samedir", Dest: dest, Umask: um},
 		callT{Op: "Remove", Umask: um},
@@ -346,6 +449,15 @@ func callsD(tier string, dest string) []callT {
 		{Op: "Chmod", Variant: "0750", Perm: 0o750, Umask: um},
 		{Op: "Chmod", Variant: "2755", Perm: 0o2755, Umask: um},
 	}
+
+	// the no-op argument dimension on a directory: current mode, current owner,
+	// Rename onto itself
+	cs = append(cs, callsCurPath(-1, true)...)
+
+	// two missing levels below an EXISTING directory under a mask that takes the
+	// owner's write and search bits (ownerUmasks): the operand decides the first
+	// level, the mode just given to the first level decides the second
+	cs = append(cs, callT{Op: "MkdirAll", Variant: "2levels-below," + permClass(0o777) + umaskClass(0o300), Perm: 0o777, Umask: 0o300, Sub: "x/y", Creates: true})
 
 	if tier == "thorough" {
 		cs = append(cs, callT{Op: "Chmod", Variant: "1777", Perm: 0o1777, Umask: um},
@@ -409,6 +521,8 @@ func callsL(tier string, dest string) []callT {
 	}
 
 	cs = append(cs,
+		callT{Op: "Lchown", Variant: "current-owner", Cur: true, Umask: um},
+		callT{Op: "Rename", Variant: "onto-itself", Cur: true, Umask: um},
 		callT{Op: "Rename", Variant: "samedir", Dest: dest, Umask: um},
 		callT{Op: "Remove", Umask: um},
 	)
@@ -437,7 +551,7 @@ func callsM(tier string) []callT {
 		callT{Op: "File.Write", Variant: "WRONLY|CREATE|EXCL,0000", Flag: os.O_WRONLY | os.O_CREATE | os.O_EXCL, Perm: 0, Umask: um, Creates: true},
 	)
 
-	for _, u := range []oct{0o022, 0o077} {
+	for _, u := range []oct{0o022, 0o077, 0o300, 0o777} {
 		cs = append(cs, callT{Op: "Symlink", Umask: u, Creates: true})
 	}
 
@@ -461,11 +575,12 @@ func callsM(tier string) []callT {
 
 	for _, p := range allPerms {
 		for _, u := range allUmasks {
-			v := permClass(p)
+			v := permClass(p) + umaskClass(u)
 			cs = append(cs,
 				callT{Op: "Mkdir", Variant: v, Perm: p, Umask: u, Creates: true},
 				callT{Op: "MkdirAll", Variant: v, Perm: p, Umask: u, Creates: true},
 				callT{Op: "MkdirAll", Variant: "2levels," + v, Perm: p, Umask: u, Sub: "x", Creates: true},
+				callT{Op: "MkdirAll", Variant: "3levels," + v, Perm: p, Umask: u, Sub: "x/y", Creates: true},
 				callT{Op: "OpenFile", Variant: "RDWR|CREATE," + v, Flag: os.O_RDWR | os.O_CREATE, Perm: p, Umask: u, Creates: true},
 				callT{Op: "OpenFile", Variant: "WRONLY|CREATE|EXCL," + v, Flag: os.O_WRONLY | os.O_CREATE | os.O_EXCL, Perm: p, Umask: u, Creates: true},
 				callT{Op: "WriteFile", Variant: v, Perm: p, Umask: u, Creates: true},
@@ -488,6 +603,23 @@ func permClass(p oct) string {
 	}
 
 	return "perm-rwx"
+}
+
+// umaskClass is the class of a mask in signatures: empty for the usual masks
+// (the creator keeps what perm gives him), else which of the owner's bits the
+// mask takes (ownerUmasks).
+func umaskClass(u oct) string {
+	if u&0o700 == 0 {
+		return ""
+	}
+
+	return ",umask-owner-" + strings.Map(func(r rune) rune {
+		if u&map[rune]oct{'r': 0o400, 'w': 0o200, 'x': 0o100}[r] == 0 {
+			return -1
+		}
+
+		return r
+	}, "rwx")
 }
 
 // level describes the domains used by one phase.
@@ -552,6 +684,10 @@ func families(tier string, depth int, lv level, tag string) []*family {
 	fo := append(append([]nodeT{}, odirs...), nodeT{"leaf", leaf, "F", lv.leaf})
 	do := append(append([]nodeT{}, odirs...), nodeT{"leaf", leaf, "D", dom{OG: lv.leafDir.OG, Modes: min(lv.leafDir.Modes, 0)}})
 
+	// E: an EMPTY regular file (full leaf domain, directories as in Fo): the
+	// no-op argument dimension where the no-op value is the usual one
+	eo := append(append([]nodeT{}, odirs...), nodeT{"leaf", leaf, "E", lv.leaf})
+
 	return []*family{
 		{ID: id("F"), Depth: depth, Nodes: with("F", lv.leaf), Leaf: leaf, LeafKind: "F", Calls: callsF(tier, dest)},
 		{ID: id("M"), Depth: depth, Nodes: dirs, Leaf: leaf, LeafKind: "M", Calls: callsM(tier)},
@@ -564,6 +700,7 @@ func families(tier string, depth int, lv level, tag string) []*family {
 		}},
 		{ID: id("Fo"), Depth: depth, Nodes: fo, Leaf: leaf, LeafKind: "F", Calls: callsOpen()},
 		{ID: id("Do"), Depth: depth, Nodes: do, Leaf: leaf, LeafKind: "D", Calls: callsOpen()},
+		{ID: id("E"), Depth: depth, Nodes: eo, Leaf: leaf, LeafKind: "E", Calls: callsE()},
 	}
 }
 
@@ -745,7 +882,7 @@ func modeAt(nt nodeT, actor int, uid, gid, i int) oct {
 	}
 
 	if nt.Dom.Modes < 0 {
-		if nt.Kind == "F" {
+		if nt.Kind == "F" || nt.Kind == "E" {
 			return 0o644
 		}
 
